@@ -366,6 +366,31 @@ def leaf_contracts():
         property_clauses={"min_length_is_at_least_n_characters": "C01", "max_length_is_at_most_n_characters": "C01"},
         doc={"min_length_is_at_least_n_characters": "string_functions.md is loose ('more than or less than'); the names are read as a minimum / maximum length, bounds included"},
         **{k: v for k, v in base.items() if k != "inline"}))
+    # ---- firstline()/firstscan()/firstmatch() without an argument
+    fl = {"firstmatch": "self.name == 'firstmatch' or self.name == 'first_match'", "firstscan": "self.name == 'firstscan' or self.name == 'first_scan'",
+          "firstline": "self.name == 'firstline' or self.name == 'first_line'"}
+    cs.append(Contract(
+        target=f"{FN}/lines/first_line.py::FirstLine._decide_match", variant="bare",
+        types={"skip": "none", "self.name": "str", "self.match": "val", "self.children": "fixed[]", "self.matcher.csvpath.match_count": "int", "self.matcher.csvpath.scan_count": "int",
+               "self.matcher.csvpath._line_monitor": "obj:LineMonitor", "self.matcher.csvpath._line_monitor._data_line_number": "optint"},
+        requires=["self.match is None", " or ".join("(%s)" % v for v in fl.values())], modifies=["self.match", "self.g_line_matches_calls"],
+        ensures={"first_scanned_line": "implies(%s, self.match == (self.matcher.csvpath.scan_count == 1))" % fl["firstscan"],
+                 "first_data_line": "implies(%s, self.match == (self.matcher.csvpath._line_monitor._data_line_number == 0))" % fl["firstline"],
+                 "first_matching_line": "implies(%s, self.match == (self.matcher.csvpath.match_count == 0 and self.g_rest_matches))" % fl["firstmatch"]},
+        returns="none", inline=INL + ["CsvPath.line_monitor", "LineMonitor.data_line_number"],
+        property_clauses={"first_scanned_line": "C01", "first_data_line": "C01", "first_matching_line": "C01"}, **{k: v for k, v in base.items() if k != "inline"}))
+    cs.append(Contract(
+        target=f"{FN}/lines/first_line.py::FirstLine._decide_match", variant="with_an_argument",
+        types={"skip": "none", "self.name": "str", "self.match": "val", "self.children": "fixed[obj:Matchable]", "self.matcher.csvpath.match_count": "int", "self.matcher.csvpath.scan_count": "int",
+               "self.matcher.csvpath._line_monitor": "obj:LineMonitor", "self.matcher.csvpath._line_monitor._data_line_number": "optint"},
+        requires=["self.match is None", " or ".join("(%s)" % v for v in fl.values())], modifies=["self.match", "self.g_line_matches_calls", "self.children.0.g_matches_calls"],
+        ensures={"first_scanned_line": "implies(%s, self.match == (self.matcher.csvpath.scan_count == 1))" % fl["firstscan"],
+                 "first_data_line": "implies(%s, self.match == (self.matcher.csvpath._line_monitor._data_line_number == 0))" % fl["firstline"],
+                 "first_matching_line": "implies(%s, self.match == (self.matcher.csvpath.match_count == 0 and self.g_rest_matches))" % fl["firstmatch"],
+                 "the_argument_runs_exactly_on_that_line": "self.children[0].g_matches_calls == old(self.children[0].g_matches_calls) + (1 if self.match is True else 0)"},
+        returns="none", inline=INL + ["CsvPath.line_monitor", "LineMonitor.data_line_number"], callee_variants={"Matchable.matches": ""},
+        property_clauses={"first_scanned_line": "C01", "first_data_line": "C01", "first_matching_line": "C01", "the_argument_runs_exactly_on_that_line": "C01"},
+        **{k: v for k, v in base.items() if k != "inline"}))
     # ---- exists(), empty(x)
     cs.append(Contract(target=f"{EU}::ExpressionUtility.is_empty", interface=True, types={"v": "val"}, ensures={"fn": "result == ufun_bool('is_empty', v)"}, returns="bool", class_fields=CF,
                        assumptions=["ExpressionUtility.is_empty(v) is a function of v only (None, 'None', 'nan', blank strings, empty containers: bounded in C01.bounded / C03.bounded)"]))
